@@ -3,7 +3,7 @@ import pickle
 import re
 
 from .. import core, engb, env, sigma
-from ..treeutil import has_err, structure, leaves
+from ..treeutil import has_err, structure, leaves, parents_ok
 
 PROP = 'C20'
 MOD = 'vp.props.c20'
@@ -55,6 +55,9 @@ def oracle(g, m, st, he, text, cfg, case, acc):
         return
     if structure(m) != st:
         return acc.fail(('tree-modified',), case)
+    pr = parents_ok(m)
+    if pr:
+        return acc.fail(('tree-modified', 'parent-links'), case, pr)
     end = m.end_pos
     seen = set()
     tups = []
